@@ -651,7 +651,15 @@ def explore(fn, max_paths=400, wall_budget_s=None):
             error = type(e).__name__ + ": " + str(e)[:300]
             value = e
             try:
-                r, model = EXP.witness()
+                # Matrix-level contents are quantified over a superset of the states: the path must be reachable with a
+                # valid state, otherwise it is flagged and re-examined with always-valid (rank<=2) contents
+                if core.CTX.physical:
+                    r, model = EXP._solve(EXP._base() + list(core.CTX.physical), EXP.timeout_ms)
+                    if r != "sat":
+                        EXP.flags.add("nonphysical_model")
+                        EXP.events.append(("nonphysical_model", "exception path: " + error[:120], None))
+                else:
+                    r, model = EXP.witness()
                 if r == "sat":
                     v = Violation("unexpected exception", "exception", model, {"error": error})
                     v.inputs = EXP.concretise(model)
